@@ -359,6 +359,14 @@ func init() {
 	// announced wait times around the 50 ms cap and beyond one octet (255 / 256 ms)
 	bw := c13Params{pause: 5, senders: 2, perSender: 1, maxBusy: 1, waits: []int{49, 50, 51, 255, 256, 280, 305, 306, 65535}, busyAtStart: true}
 	register("both", &h.Scenario{Name: "C13-pause5-2x1-busy1-wire-wait-times", Prop: "C13", P: 1, F: 1, D: 1, Run: c13Run(bw), Check: c13Oracle(bw)})
+	// every announced wait time of the quantifier (0..500 ms), both control values, the indication
+	// arriving idle, right after a transmission, mid-pause and at the end of the pause
+	var every []int
+	for w := 0; w <= 500; w++ {
+		every = append(every, w)
+	}
+	ew := c13Params{pause: 20, senders: 1, perSender: 2, maxBusy: 1, waits: every, busyAtStart: true}
+	register("both", &h.Scenario{Name: "C13-pause20-1x2-busy1-every-wait-0..500", Prop: "C13", P: 0, F: 1, D: -1, Run: c13Run(ew), Check: c13Oracle(ew)})
 	// a transmission fails in the socket write: the transmissions after it are paced as before
 	wf := c13Params{pause: 20, senders: 2, perSender: 3, writeFails: 1}
 	register("both", &h.Scenario{Name: "C13-pause20-2x3-write-fails", Prop: "C13", P: 1, F: 1, D: 1, Run: c13Run(wf), Check: c13Oracle(wf)})
